@@ -291,12 +291,12 @@ def run(prop, tier):
     nv = 2
     mc_rows, mc_depth = (3, 2) if kind == "fixed" else (3, 1)
     if not quick:
-        mc_rows, mc_depth = (3, 3) if kind == "fixed" else (3, 2)
+        mc_rows, mc_depth = (3, 3) if kind == "fixed" else (2, 2)     # measured: variable (2,2) = 0.84 M states / 80 s; (3,2) does not finish in 25 min
     for tfc in ("intraday", "daily"):
         cfg = "Store_%s_%s_mc.cfg" % (kind, tfc)
         consts = dict(NI0=ni0, NI1=ni1, NV=nv, NO=no, Kind='"%s"' % kind, TfClass='"%s"' % tfc, MaxRows=mc_rows,
                       Depth=mc_depth, EdgeOff=(no - 1 if kind == "variable" else 99), Deviations=devs)
-        r = vlib.run_tlc("Store", cfg, timeout=1500,
+        r = vlib.run_tlc("Store", cfg, timeout=3000,
                          cfg_text=vlib.cfg_text(consts, invariants=["ImplRefinesAbs", "DeviationsExplainAll"], view="View"))
         vlib.tlc_ok(r, cfg)
         if r["violated"]:
